@@ -23,7 +23,9 @@ REQUIRED_THEOREMS = ['CfVerif.C04.' + t for t in (
     'set_value_wire_int', 'refused_without_tx', 'out_of_range_raises', 'set_value_raise_unchanged',
     'set_roundtrip', 'set_roundtrip_int', 'fanout_each_once', 'registrations_nodup',
     'one_outstanding_fifo', 'reply_attribution_partial', 'reply_attribution_counterexample',
-    'reply_attribution_duplicates_counterexample')]
+    'reply_attribution_duplicates_counterexample', 'open_lock_discipline', 'unmatched_reply_ignored',
+    'stale_reply_ignored_when_idle', 'reply_for_other_request_ignored', 'update_callbacks_once_per_answer',
+    'stale_same_id_counterexample')]
 TRUSTED = ['harness/corr/c04.py extractor + correspondence + spec twin; harness/sim/crazyflie_device.py (session stepping, link) and harness/vsched',
            'environment model: the firmware parameter server of DESIGN Appendix D (Spec/C04 Dev = harness/sim CrazyflieDevice port 2, cross-checked on every transmitted request)',
            "CPython: struct pack/unpack as modelled in Base/Struct; int(str) on ASCII input; float(str) (passed to the model as an oracle, only reached for "
@@ -35,8 +37,10 @@ ASSUMPTIONS = ['the 60 s wall-clock wait of set_value/get_value before the first
                'FP16 parameters (pytype \'\') are outside the property; the model follows the code (struct.error) and the harness keeps them out of connected tables',
                'update / misc callbacks do not call back into Param while they run (no re-entrancy)',
                'link loss, close() and reconnection (queue drain, forced lock release) belong to C02/C10 and are not modelled',
-               'replies duplicated or forged by the link are outside the closed-system theorems (the device answers each request once); the host model '
-               'itself accepts arbitrary packets and is compared with the code on malformed / unsolicited ones',
+               'duplicated / late / forged packets: covered by the open-system theorems (EvX.inject: lock discipline, FIFO, ignored when idle or when '
+               'another index is outstanding, one fan-out per accepted answer); the closed-system theorems (Answers, attribution, round trip) assume '
+               'the device answers each request once; a stale answer with the SAME index as the outstanding request is accepted (finding D5c)',
+               'retransmission itself (Crazyflie.send_packet retry timers) is C10; here a retransmitted request only matters through the second answer',
                'the port callback left behind by _ExtendedTypeFetcher after connection (C03) is unregistered by the harness; TOC download itself is C03',
                'reply_attribution is PARTIAL: side condition DistinctAlong (finding D5b)']
 RULE = ('cases = request lines of scenarios, each on a fresh simulated Crazyflie (2-10 parameters over all 10 numeric types, V2 and legacy protocol, RO / '
@@ -206,6 +210,10 @@ def extract(ctx):
     # -- updater packet callback
     cb = X.find(up, '_new_packet_cb')
     g.strings('cbCompares', X.compares(cb))
+    # the comparisons the model depends on: the two conjuncts that are implied by the enclosing channel test are left out
+    g.strings('cbComparesCore', [c for c in X.compares(cb) if c not in ('pk is not None', 'pk.channel != TOC_CHANNEL')])
+    # `_lock_pattern` is disarmed when an answer is accepted (both on the read/write and on the misc path)
+    g.strings('cbPatternAssigns', _assigned(cb, 'self._lock_pattern'))
     rel = _assigned(cb, 'release_pattern')
     X.expect(len(rel) == 3, '_ParamUpdater._new_packet_cb: expected three assignments to release_pattern')
     g.nat('relLenV2', _slice_len(rel[0], '_new_packet_cb'))
@@ -417,14 +425,14 @@ class Real:
     """the real Crazyflie + Param connected to a simulated device, one atomic step per call.
     Every method returns the list of observation tokens of the step (same vocabulary as Driver/C04.lean)."""
 
-    def __init__(self, dev, ids, routing):
+    def __init__(self, dev, ids, routing, needs_resending=False):
         from harness.sim import crazyflie_device as S
         self.S = S
         self.dev = dev
         self.ids = ids
         self.routing = routing
         self.log = []
-        self.s = S.SyncSession(dev)
+        self.s = S.SyncSession(dev, needs_resending=needs_resending)
         lg = logging.getLogger('cflib.crazyflie')
         lg.setLevel(logging.ERROR)
         lg.propagate = False
@@ -599,6 +607,35 @@ class Real:
     def inject(self, chan, data):
         self.link.inject(2, chan, bytes(data))
 
+    # -- duplicated / late replies
+    def replay(self, index):
+        """the index-th reply the device generated in this session is delivered (queued) once more"""
+        self.link.replay(index)
+
+    def hold(self):
+        """take the packets in flight off the link (they are late); give them back with unhold()"""
+        held = list(self.link.ready)
+        self.link.ready.clear()
+        return held
+
+    def unhold(self, held, front=False):
+        if front:
+            for p in reversed(held):
+                self.link.ready.appendleft(p)
+        else:
+            self.link.ready.extend(held)
+
+    def timer_step(self):
+        """needs_resending links: the earliest retry timer of Crazyflie.send_packet fires (the request is retransmitted and
+        the device answers it again).  Returns the retransmitted PARAM packets [(chan, data)], or None when no timer is pending."""
+        if not self.s.timers:
+            return None
+        n0 = len(self.link.sent)
+        self.s.fire_timer()
+        out = [(c, d) for (p, c, d) in self.link.sent[n0:] if p == 2]
+        self.nsent = len(self.link.sent)          # retransmissions are C10's business: not observations of the param model
+        return out
+
 
 # ---- generators ----------------------------------------------------------------------------------------------
 def type_range(ct):
@@ -700,7 +737,7 @@ def gen_value(rng, ct):
 class Scenario:
     """one scenario = one device + one real session + the request lines for the Lean driver and the expected replies"""
 
-    def __init__(self, ctx, routing, snap, v2=True, n=None, all_types=False):
+    def __init__(self, ctx, routing, snap, v2=True, n=None, all_types=False, needs_resending=False):
         from harness.sim import crazyflie_device as S
         self.S = S
         self.ctx = ctx
@@ -708,7 +745,7 @@ class Scenario:
         self.dev = make_device(ctx.rng, S, v2=v2, n=n, all_types=all_types)
         _hook_device(self)               # before the session connects: remembers the device's replies to PARAM requests
         self.ids = {}
-        self.real = Real(self.dev, self.ids, routing)
+        self.real = Real(self.dev, self.ids, routing, needs_resending=needs_resending)
         self.lines = []
         self.expect = []
         self.cbreg = {}
@@ -756,6 +793,21 @@ class Scenario:
     @property
     def dev_last_replies(self):
         return self._last_replies
+
+    def timer(self):
+        """a retry timer fires: the retransmitted request reaches the device (twin kept in step); the host model is not involved"""
+        re = self.real.timer_step()
+        if re is None:
+            return False
+        for (chan, data) in re:
+            self.emit('dev %d %s' % (chan, hexs(data)), ['ok'] + ['%d:%s' % (c, hexs(d)) for (_, c, d) in self._last_replies])
+        return True
+
+    def set(self, name, v, in_cb=False):
+        r = self.real
+        toks = r.set_value(name, v, in_cb)
+        self.emit('set %s %s %d %s' % (r.cn(name), pyval_tok(v), 1 if in_cb else 0, oracle_tok(v, r.pytype(name))), ['ok'] + toks)
+        return toks
 
     def deliver(self):
         r = self.real.deliver()
@@ -806,6 +858,15 @@ def run_ops(sc, nops, weights=None):
     bad_names = ['nosuch.p0', names[0].split('.')[0] + '.zz', 'plain', 'a.b.c', '', names[0] + '.x']
     for _ in range(nops):
         x = rng.random()
+        if rng.random() < 0.08 and r.link.history:
+            # a reply the device generated earlier is delivered (queued) once more: duplicate / stale answer, in whatever state
+            k = rng.randrange(len(r.link.history)) if rng.random() < 0.5 else len(r.link.history) - 1
+            if r.link.history[k][0] == 2:
+                r.replay(k)
+                ctx.count('step:replay-chan%d' % r.link.history[k][1])
+        if rng.random() < 0.1:
+            if sc.timer():
+                ctx.count('step:retransmit')
         if x < 0.22:
             if not sc.upd():
                 ctx.count('step:upd-disabled')
@@ -946,6 +1007,56 @@ def float_cases(ctx, n):
     return lines, want
 
 
+def dup_family(sc):
+    """the answer to a write/read of X delivered again (i) while the updater is idle, (ii) while a request for another
+    parameter is outstanding, (iii) while another request for X is outstanding; plus, on needs_resending links, the natural
+    duplicate: the answer is late, the retry timer retransmits, the device answers both copies"""
+    rng, r, ctx, dev = sc.rng, sc.real, sc.ctx, sc.dev
+    w = [i for i, p in enumerate(dev.param_toc) if not p.readonly]
+    if len(w) < 2 or not getattr(r.param, 'is_updated', False) or not r.proto4():
+        return
+    ix, iy = rng.sample(w, 2)
+    nx, ny = sc.names[ix], sc.names[iy]
+    px, py = dev.param_toc[ix], dev.param_toc[iy]
+    first = rng.choice(['set', 'read'])
+    if first == 'set':
+        sc.set(nx, rand_value(rng, px.ctype))
+    else:
+        sc.emit('requpd %s 1' % r.cn(nx), ['ok'] + r.request_update(nx))
+    drain(sc)
+    k = len(r.link.history) - 1
+    if k < 0 or r.link.history[k][0] != 2 or r.link.history[k][1] not in (1, 2):
+        return
+    r.replay(k)                                   # (i) idle
+    sc.deliver()
+    sc.set(ny, rand_value(rng, py.ctype))          # (ii) another parameter outstanding
+    if sc.upd():
+        held = r.hold()
+        r.replay(k)
+        sc.deliver()
+        r.unhold(held)
+    drain(sc)
+    if rng.random() < 0.5:                         # (iii) the same parameter outstanding (finding D5c: accepted as its answer)
+        sc.set(nx, rand_value(rng, px.ctype))
+    else:
+        sc.emit('requpd %s 1' % r.cn(nx), ['ok'] + r.request_update(nx))
+    if sc.upd():
+        held = r.hold()
+        r.replay(k)
+        sc.deliver()
+        r.unhold(held)
+    drain(sc)
+    if r.s.cfg.needs_resending:                    # natural duplicate
+        sc.set(nx, rand_value(rng, px.ctype))
+        if sc.upd():
+            held = r.hold()
+            if sc.timer():
+                ctx.count('dup:retransmitted')
+            r.unhold(held, front=True)
+        drain(sc)
+    ctx.count('dup:family-' + first)
+
+
 def drain(sc, limit=400):
     for _ in range(limit):
         a = sc.upd() if sc.real.s._worker_ready(sc.real.upd) else False
@@ -964,9 +1075,13 @@ def correspond(ctx):
     nsc = 1500 if thorough else 120
     for k in range(nsc):
         v2 = ctx.rng.random() < 0.85
-        sc = Scenario(ctx, routing, snap, v2=v2, all_types=(k % 5 == 0), n=10 if k % 5 == 0 else None)
+        nr = (k % 3 == 1)
+        ctx.count('link:needs_resending=%d' % (1 if nr else 0))
+        sc = Scenario(ctx, routing, snap, v2=v2, all_types=(k % 5 == 0), n=10 if k % 5 == 0 else None, needs_resending=nr)
         if ctx.rng.random() < 0.7:
             drain(sc)                       # fetch all values: fully connected
+        if k % 2 == 0:
+            dup_family(sc)
         run_ops(sc, 150 if thorough else 80)
         if sc.real.proto4():
             drain(sc)
@@ -1114,7 +1229,101 @@ def _misc_case(ctx, S, routing, reqs, ctypes, label):
 def search(ctx):
     """the property itself (Python twin of Spec/C04 + the statement) evaluated on the real code's observable behaviour"""
     _search_sync(ctx)
+    _search_duplicates(ctx)
     search_threads(ctx)
+
+
+def _search_duplicates(ctx):
+    """Duplicated and late answers.  Spec: every update callback is called exactly once per answered request with the device's
+    value, and an answer that arrives again - while nothing, or a request for ANOTHER parameter, is outstanding - changes
+    nothing and calls nobody.  (While another request for the SAME parameter is outstanding the stale answer cannot be told
+    from the real one: finding D5c, reported under its own key.)"""
+    from harness.sim import crazyflie_device as S
+    rng = ctx.rng
+    routing, _snap = source_variant()
+    trials = 24 if ctx.tier == 'thorough' else 8
+    for t in range(trials):
+        nr = bool(t % 2)
+        cts = [CTYPES[(t + j) % len(CTYPES)] for j in range(3)]
+        ps = [S.ParamVar('g', 'p%d' % k, ct, value=rand_value(rng, ct)) for k, ct in enumerate(cts)]
+        dev = S.CrazyflieDevice(protocol_version=5, param_toc=ps)
+        r = Real(dev, {}, routing, needs_resending=nr)
+        calls = []
+        r.param.add_update_callback(group=None, name=None, cb=lambda n, v: calls.append((n, v)))
+        r.param.add_update_callback(group='g', name=None, cb=lambda n, v: calls.append((n, v)))
+        _pump(r)
+        if not _ready(ctx, r, 'duplicates'):
+            return
+        ctx.count('search:duplicates')
+
+        def consistent(i):
+            try:
+                c = r.param.get_value('g.p%d' % i)
+                return _bits(cts[i], float(c) if cts[i] in ('float', 'double') else int(c)) == _bits(cts[i], dev.param_toc[i].value)
+            except Exception:
+                return False
+
+        def fail(key, state, what, **kw):
+            ctx.witness(key, 'a duplicated / late answer %s: %s' % (state, what),
+                        {'types': cts, 'needs_resending': nr, 'state': state, 'first_request': kind}, **kw)
+
+        kind = rng.choice(['set', 'read'])
+        del calls[:]
+        if kind == 'set':
+            _call(r, r.param.set_value, 'g.p0', rand_value(rng, cts[0]))
+        else:
+            _call(r, r.param.request_param_update, 'g.p0')
+        _pump(r)
+        k = len(r.link.history) - 1
+        if len(calls) != 2:
+            fail('callback-count', 'none (plain answer)', 'expected each of the 2 callbacks once, got %r' % (calls,))
+            continue
+        # (i) nothing outstanding
+        base = list(calls)
+        r.replay(k)
+        _pump(r)
+        if calls != base or not consistent(0):
+            fail('duplicate-reply-accepted', 'while nothing is outstanding', 'callbacks %r -> %r, cache==device: %s' % (base, calls, consistent(0)))
+        # (ii) a request for another parameter outstanding
+        base = list(calls)
+        v1 = rand_value(rng, cts[1])
+        _call(r, r.param.set_value, 'g.p1', v1)
+        r.upd_step()
+        held = r.hold()
+        r.replay(k)
+        r.deliver()
+        mid = list(calls)
+        r.unhold(held)
+        _pump(r)
+        want = base + [('g.p1', calls[-1][1])] * 2 if len(calls) >= 2 else None
+        if mid != base or calls != want or not consistent(1) or not consistent(0):
+            fail('duplicate-reply-accepted', 'while a request for another parameter is outstanding',
+                 'callbacks before %r, after the duplicate %r, at the end %r' % (base, mid, calls))
+        # natural duplicate: late answer, retransmission, both copies answered
+        if nr:
+            base = list(calls)
+            _call(r, r.param.set_value, 'g.p2', rand_value(rng, cts[2]))
+            r.upd_step()
+            held = r.hold()
+            fired = r.timer_step()
+            r.unhold(held, front=True)
+            _pump(r)
+            ctx.count('search:duplicates-retransmitted' if fired else 'search:duplicates-no-timer')
+            if len(calls) != len(base) + 2 or any(c[0] != 'g.p2' for c in calls[len(base):]) or not consistent(2):
+                fail('duplicate-reply-accepted', 'after a retransmission (late answer, both copies answered)',
+                     'callbacks for one set_value: %r' % (calls[len(base):],))
+        # (iii) another request for the SAME parameter outstanding  (D5c)
+        base = list(calls)
+        _call(r, r.param.set_value, 'g.p0', rand_value(rng, cts[0]))
+        r.upd_step()
+        held = r.hold()
+        r.replay(k)
+        r.deliver()
+        r.unhold(held)
+        _pump(r)
+        if len(calls) != len(base) + 2 or not consistent(0) or len(set(calls[len(base):])) != 1:
+            fail('D5c-stale-reply-same-id', 'while another request for the same parameter is outstanding',
+                 'callbacks %r, cache==device: %s' % (calls[len(base):], consistent(0)))
 
 
 def _search_sync(ctx):
